@@ -343,32 +343,41 @@ def property_violations(req, line):
 
 
 # ---------------------------------------------------------------- running
-def run_lines(ck, cmd, lines, timeout):
-    """run a line-protocol program; on a timeout/crash bisect down to one offending request.
-    -> (answers or None, offending request index or None, reason)"""
+def run_lines(ck, cmd, lines, timeout=None):
+    """run a line-protocol program on `lines`, in chunks. A chunk that times out or crashes is split and
+    re-run, down to single requests, so that a slow machine never produces a verdict: only a *single*
+    request on which the program does not return within 120 s (or crashes) is reported.
+    -> (answers, offending request index or None, reason)"""
     import subprocess
-    text = "".join(l + "\n" for l in lines)
-    try:
-        p = ck.run(cmd, input=text, timeout=timeout)
-        if p.returncode == 0:
-            return p.stdout.splitlines(), None, None
-        reason = "exit %d: %s" % (p.returncode, p.stderr[-800:])
-    except subprocess.TimeoutExpired:
-        reason = "timeout"
-    lo, hi = 0, len(lines)
-    # find a single failing request (each probe is short)
-    while hi - lo > 1:
-        mid = (lo + hi) // 2
+    answers = [None] * len(lines)
+    offending = []
+
+    def go(lo, hi):
+        n = hi - lo
         try:
-            q = ck.run(cmd, input="".join(l + "\n" for l in lines[lo:mid]), timeout=max(20, timeout // 4))
-            failed = q.returncode != 0
+            p = ck.run(cmd, input="".join(l + "\n" for l in lines[lo:hi]), timeout=120 + n // 4)
+            out = p.stdout.splitlines()
+            if p.returncode == 0 and len(out) == n:
+                answers[lo:hi] = out
+                return
+            reason = "exit %d: %s" % (p.returncode, p.stderr[-800:])
         except subprocess.TimeoutExpired:
-            failed = True
-        if failed:
-            hi = mid
-        else:
-            lo = mid
-    return None, lo, reason
+            reason = "no answer within %d s" % (120 + n // 4)
+        if n == 1:
+            offending.append((lo, reason))
+            answers[lo] = "missing"
+            return
+        mid = (lo + hi) // 2
+        go(lo, mid)
+        if not offending:
+            go(mid, hi)
+
+    step = 4000
+    for lo in range(0, len(lines), step):
+        go(lo, min(len(lines), lo + step))
+        if offending:
+            return None, offending[0][0], offending[0][1]
+    return answers, None, None
 
 
 def run(ck):
@@ -414,7 +423,7 @@ def run(ck):
 
     def both(s):
         lines = [r.line for r in by_solver[s]]
-        return run_lines(ck, [bins["c08_%s" % s]], lines, 900), run_lines(ck, [driver], lines, 900)
+        return run_lines(ck, [bins["c08_%s" % s]], lines), run_lines(ck, [driver], lines)
 
     with ThreadPoolExecutor(max_workers=6) as ex:
         outputs = dict(zip(SOLVERS, ex.map(both, SOLVERS)))
